@@ -29,8 +29,8 @@ WATER_NOTE = ("modelled: drainage.py, rainfall_partition.py, irrigation.py, infi
               "tied bit-for-bit by its L1 suite; the wiring of one day (which flux is reported in which column) is Day.v's plumbing replay")
 
 reg(Prop("C02", "rain and irrigation are fully partitioned at the surface",
-    [("rainirr", 8000, 100000), ("infiltration", 8000, 100000), ("drainage", 4000, 50000)],
-    trace_mon("C02", 60, 900, bunds=lambda r: r.random() < 0.4,
+    [("rainirr", 8000, 100000), ("infiltration", 8000, 100000), ("drainage", 4000, 50000), ("day", 2500, 30000), ("runc", 36, 400)],
+    trace_mon("C02", 60, 900, bunds=lambda r: r.random() < 0.4, inert=True,
               # the day the bunds are removed with water still ponded (negative reported infiltration): bunds in the season, none in the
               # fallow, off-season simulated, >= 2 seasons, slowly draining soil
               off_season=lambda r: r.random() < 0.6, seasons=lambda r: r.choice([1, 2, 2, 3]),
